@@ -498,7 +498,7 @@ func (a *agg) add(label string, r result) bool {
 func (a *agg) finish() ev.Outcome {
 	a.o.NonTrivial = a.nNonTriv > 0
 	a.o.Ratios = map[string]float64{
-		"slowest_decode_cpu_seconds/deadline":       a.maxSecs / callDeadline.Seconds(),
+		"slowest_decode_cpu_seconds/deadline": a.maxSecs / callDeadline.Seconds(),
 		"alloc_when_overlimit_rejected/bound": 0,
 	}
 	if a.o.Err == "" {
